@@ -72,7 +72,7 @@ Proof. vm_compute. reflexivity. Qed.
 Lemma attr_bool_then_value_raises : parse_attribute_string s_a_ab = Exn TypeError.
 Proof. vm_compute. reflexivity. Qed.
 
-(* ---- the schema text class is wider than the round-trip class (findings C05-F1, C05-F3) ---- *)
+(* ---- records: before 4719ff8 (C05-F1) and 784517a (C05-F3) the schema text class was wider than the round-trip class ---- *)
 Definition line_of (d : str) : str :=
   match write_tag_line no_dis n_zork 1 [] (Some d) with Some l => l | None => [] end.
 
@@ -99,7 +99,7 @@ Proof.
   destruct desc_outer_blank_lost as [_ H]. rewrite H. intro E. inversion E.
 Qed.
 
-(* ---- the same witnesses on the repaired code ---- *)
+(* ---- the same witnesses on the current code (after 4719ff8 and 784517a) ---- *)
 (* F1: the XML reader now delivers the stripped description, which round-trips *)
 Lemma desc_outer_blank_after_fix :
   xml_read_desc true d_lead = Some d_lead_stripped /\
@@ -117,6 +117,34 @@ Lemma desc_nowiki_still_removed :
   schema_text_ok d_nowiki = true /\
   read_tag_line true (line_of d_nowiki) = Ok (Some (mkParsed false 1 n_zork [] (Some d_nowiki_gone))).
 Proof. vm_compute. split; reflexivity. Qed.
+
+
+(* ---- a small tree of HED8.3.0 through the whole tag section (writer, then reader) ---- *)
+Definition n_event : str := [69;118;101;110;116]%N.
+Definition d_event : str := [83;111;109;101;116;104;105;110;103;32;116;104;97;116;32;104;97;112;112;101;110;115;32;97;116;32;97;32;103;105;118;101;110;32;116;105;109;101;32;97;110;100;32;40;116;121;112;105;99;97;108;108;121;41;32;112;108;97;99;101;46]%N.
+Definition n_agent_action : str := [65;103;101;110;116;45;97;99;116;105;111;110]%N.
+Definition sec_items : list tag_item :=
+  [ mkItem [n_event] [(k_suggested, AStr [84;97;115;107;45;112;114;111;112;101;114;116;121]%N)] (Some d_event);
+    mkItem [n_event; ex_name] ex_attrs (Some ex_desc);
+    mkItem [n_event; ex_name; n_zork] [] None;
+    mkItem [n_event; n_agent_action] [] (Some d_lt) ].
+
+Definition sec_lines : list str :=
+  Eval vm_compute in
+    flat_map (fun o => match o with Some l => [l] | None => [] end) (write_tag_section no_dis sec_items).
+
+Lemma ex_section :
+  exists lines,
+    write_tag_section no_dis sec_items = map Some lines /\
+    Forall (fun e => name_ok (last (ti_path e) []) = true /\ desc_ok (ti_desc e) = true /\ attr_ok (ti_attrs e) = true
+                     /\ wiki_text_ok (format_tag_attributes no_dis (ti_attrs e)) = true) sec_items /\
+    Forall2 (fun e line => row_free_of_reserved true (last (ti_path e) []) line = true) sec_items lines /\
+    read_tag_section true [] lines = Ok sec_items.
+Proof.
+  exists sec_lines. split; [vm_compute; reflexivity|].
+  split; [repeat constructor|].
+  split; [repeat constructor | vm_compute; reflexivity].
+Qed.
 
 (* ---- traversal: a small partnered library ---- *)
 Definition t_base := mkTag [1] false None [5].
